@@ -11,7 +11,7 @@ import tlcgen
 
 # which monitor tags count for which property check ("PANIC": a task of the client panicked)
 TAGS = {
-    "C01": {"C01", "PANIC"},
+    "C01": {"C01", "C13", "PANIC"},
     "C04": {"C04"},
     "C05": {"C05"},
     "C08": {"C08", "PANIC"},
@@ -104,6 +104,19 @@ def _run(prop, tier, replay, seed, work, t0):
     if replay:
         with open(replay) as f:
             rp = json.load(f)
+        if "greet_case" in rp:
+            # protocol-level connect case (C18)
+            cp, tp = work.path("greet.ndjson"), work.path("greet_out.ndjson")
+            with open(cp, "w") as f:
+                f.write(json.dumps(rp["greet_case"]) + "\n")
+            C.run([binpath, "wire", cp, tp], timeout=300)
+            tuples, _, _, _ = C.tlc_trace("WireTrace", "WireTrace.cfg", tp, work, timeout=600)
+            for t in tuples:
+                if t[0] == "VIOL":
+                    for p, msg, sig in t[3]:
+                        if p == prop:
+                            verdict.add(prop, msg, sig, {"run": None})
+            return verdict.finish(lambda *a: replay)
         scheds = [rp["schedule"]]
     else:
         # ---- role 1: design check (exhaustive, small scope) on the model as coded
@@ -171,7 +184,7 @@ def _run(prop, tier, replay, seed, work, t0):
             cfg = sc.get("cfg", {})
             if any(k in cfg for k in ("max_read", "max_write", "pic", "password", "greeting")):
                 return False
-            return not any(st.get("kind") == "art" for b in sc.get("batches", []) for st in b)
+            return not any(st.get("kind") in ("art", "tlist", "tvec") for b in sc.get("batches", []) for st in b)
         keep = {sc["run"] for sc in scheds if plain(sc)}
         ltp = work.path("looptrace.ndjson")
         nruns = 0
